@@ -115,6 +115,12 @@ CHECKS = {
             'returns over {-10%, 0, +5%, +10%} is evaluated; all identities of the statement and max drawdown, CAGR, Sharpe, Sortino, Calmar, Omega recomputed from their definitions. Sessions of 1440k+r minutes, spot and futures, '
             'one route and two routes in both orders, holding a position / a resting entry order / nothing across midnight: every equity sample is compared with wallet + unrealised PnL (futures) or free + reserved quote + base value (spot).',
             'Streak metrics are bounded between the strict run length and the run length that absorbs break-even trades.', 'DESIGN.md 3/C16'),
+    'C11': ('opseq', 'exhaustive enumeration of call histories (earlier sessions x probe, including sessions that abort with an exception) each in its own forked process, compared with the probe in a fresh process',
+            'Alphabet: 17 sessions - a base futures session, one variant per argument dimension (exchange name, spot, leverage, isolated mode, fee, balance, symbol, timeframe + data route, fast mode, warm-up, program, '
+            'two routes) and four fault variants (hook raising at the first fill / mid-session / at the end, margin rejection). Every history of one (quick) or two (thorough) earlier sessions followed by each probe runs in '
+            'its own process WITHOUT the harness\'s reset of process-wide state; the probe\'s metrics, full trace of orders and hooks, trades and balances must equal the fresh-process result, the same call twice must agree, '
+            'and config / routes / data_routes / candle arrays must be unchanged after the call.',
+            'Fresh process = forked from a parent that imported jesse but never ran a session. Thorough depth 2 keeps all ordered pairs of different earlier sessions before 4 probes.', 'DESIGN.md 3/C11'),
 }
 
 NOT_APPLICABLE = {}
